@@ -5,10 +5,30 @@ from spec import gen
 M_ = 'Obj("core.matcher.Matcher")'
 
 
+_ALPHA = list('abcwl_*!.,:()[]="@# 0123456789') + ['nil', 'new', 'wl_surface', '\u00e9', '\u4e2d', '\x1b[31m', '\x1b[0m', '\t', '\n', '-', '1.5', "'", '\\']
+
+
+def _gen_parse(rnd):
+    from spec import matcher_ref
+    r = rnd.random()
+    if r < 0.7:
+        return (matcher_ref.generate(rnd),)
+    if r < 0.8:
+        return (rnd.choice(_MT),)
+    return (''.join(rnd.choice(_ALPHA) for _ in range(rnd.randint(0, 14))),)
+
+
 @contract('core.matcher.parse')
 def _(c):
-    c.trusted('C18.1/C05: returns a new matcher graph or raises RuntimeError; touches nothing that exists')
-    c.raises('RuntimeError', when=None, exact=False)
+    c.prop('C05', 'C18')
+    c.bounded('string-splitting recursive-descent parser with callable parameters and regular expressions: outside the verifier. At call sites: returns a new matcher '
+              'graph or raises RuntimeError, touches nothing that exists. On generated inputs (documented grammar rendered with arbitrary whitespace and redundant '
+              'brackets; random strings over the matcher alphabet and arbitrary Unicode): nothing but RuntimeError is raised, an accepted matcher can be printed, '
+              'simplified and evaluated on every sample message, and a matcher of the documented grammar is accepted and selects exactly what its abstract syntax says')
+    c.ensures('usable(result)', 'an_accepted_matcher_can_be_evaluated_and_printed', native_only=True)
+    c.ensures('documented_meaning_ok(text, result)', 'selects_what_the_documented_meaning_says', native_only=True)
+    c.raises('RuntimeError', when=None, exact=False, native_when='not is_documented(text)')
+    c.native_gen(_gen_parse, quick=6000, thorough=60000)
     c.ensures('fresh(result)')
     c.ensures('(not isinstance(result, MatcherList)) or (fresh(result.positive) and fresh(result.negative) and result.positive is not result.negative)', 'lists_of_the_result_are_new')
     c.modifies('new')
